@@ -81,7 +81,7 @@ func (r *Report) collect(results []*JobResult, groups map[string]*group, order [
 		if len(jr.Sol.Disagree) > 0 {
 			r.inconcl = append(r.inconcl, fmt.Sprintf("%s: solver disagreement: %s", jr.Harness, jr.Sol.Disagree[0]))
 		}
-		if jr.Eng.Completed == 0 && jr.Crash == "" {
+		if jr.Eng.Completed == 0 && jr.Crash == "" && jr.Shard == "" {
 			r.inconcl = append(r.inconcl, fmt.Sprintf("%s: vacuous (no path completed)", jr.Harness))
 		}
 		for i := range jr.Eng.Violations {
